@@ -27,6 +27,8 @@ import WntrModel.Lemmas.AmlReal
 import WntrModel.Lemmas.AmlCsr
 import WntrModel.Lemmas.AmlCsrIf
 import WntrModel.Lemmas.AmlRealFull
+import WntrModel.Model.EvalShape
+import WntrModel.Gen.EvaluatorShape
 import Mathlib.Analysis.Normed.Field.Lemmas
 
 namespace Wntr.Aml
@@ -581,5 +583,86 @@ theorem setValue_overwrites {α : Type} (O : Ops α) (m : Model α) (i : Nat) (x
 example :
     let m0 := Model.run ratOps ({} : Model Rat) [.setVar 0 1, .register (exCon 0 0) 100 [10] [], .setStructure, .loadX [2]]
     m0.varValue ratOps 0 = 2 ∧ (m0.setVar 0 1).varValue ratOps 0 = 1 := by decide +kernel
+
+
+/-! ## 12. the hand-written stack machine IS the C++ source (translator tie) -/
+
+/-- `Ops.sign` is the C++ conditional `if (arg >= 0) res = 1.0; else res = -1.0;` -/
+def SignIsCpp {α : Type} (O : Ops α) : Prop :=
+  ∀ x, O.sign x = if O.le (O.ofRat 0) x then O.ofRat 1 else O.neg (O.ofRat 1)
+
+/-- **opcode_tables_agree.** `OperationEnum` of expr.py (what `get_rpn` emits) and the `const int` opcodes of
+evaluator.hpp (what `_evaluate` dispatches on) are the same table, name by name, value by value; and the `if (ndx == …)`
+chain of `_evaluate` has exactly one case per constant, in that order. Decided on the regenerated tables. -/
+theorem opcode_tables_agree :
+    Gen.pyEnum.map (fun p => (p.1.toUpper, p.2)) = Gen.cppConsts ∧
+    Gen.cases.map (fun c => (c.name, c.code)) = Gen.cppConsts := by
+  constructor <;> decide +kernel
+
+/-- the opcodes the model's `toRpn` / `getRpn` emit are those constants -/
+theorem model_opcodes_are_cpp_constants :
+    [Bin.add, .sub, .mul, .div, .pow].map Bin.code ++
+      [Un.abs, .sign].map Un.code ++ [codeIfElse, codeIneq] ++
+      [Un.exp, .log, .neg, .sin, .cos, .tan, .asin, .acos, .atan].map Un.code = Gen.cppConsts.map (·.2) := by
+  decide +kernel
+
+/-- **evaluator_shape_is_model.** The table regenerated from the CURRENT `_evaluate` source (per opcode: the operands
+popped, in source order, and the expression assigned to `res`), interpreted by `shapeStep`, is `step` of
+`Model/Rpn.lean` — for every value type, leaf vector, stack and program entry. Any edit of an opcode case (an arithmetic
+select instead of `if (arg == 1)`, a strict instead of a closed inequality, swapped operands, a wrong libm call, a changed
+opcode constant) changes the generated table and breaks this theorem. -/
+theorem evaluator_shape_is_model {α : Type} (O : Ops α) (hsign : SignIsCpp O) (vals : Nat → α) (s : List α) (t : Int) :
+    shapeStep O vals Gen.cases s t = step O vals s t := by
+  unfold shapeStep step
+  by_cases h0 : 0 ≤ t
+  · simp [h0]
+  · simp only [h0, if_false]
+    by_cases hlo : t < -18
+    · have e1 : decodeBin t = none := by simp only [decodeBin]; repeat (first | rw [if_neg (by omega)] | rfl)
+      have e2 : decodeUn t = none := by simp only [decodeUn]; repeat (first | rw [if_neg (by omega)] | rfl)
+      have e3 : Gen.cases.find? (fun c => c.code == t) = none := by
+        simp only [Gen.cases, List.find?_cons, List.find?_nil]
+        repeat (first | rw [show ((_ : Int) == t) = false from by simp; omega] | rfl)
+      rw [e1, e2, e3]
+      simp only []
+      rw [if_neg (show ¬ t = codeIfElse by unfold codeIfElse; omega),
+        if_neg (show ¬ t = codeIneq by unfold codeIneq; omega)]
+    · have hr : -18 ≤ t ∧ t ≤ -1 := by omega
+      obtain ⟨h1, h2⟩ := hr
+      interval_cases t <;>
+        (rcases s with _ | ⟨x2, _ | ⟨x1, _ | ⟨x, r⟩⟩⟩ <;>
+          simp [Gen.cases, CaseShape.apply, CExp.eval, CCond.eval, decodeBin, decodeUn, codeIfElse, codeIneq, Ops.bin, Ops.un,
+            Ops.ofBool, hsign _, bind, pure] <;>
+          first
+          | done
+          | (split <;> rfl))
+
+/-- the side condition holds for the instances used elsewhere -/
+example : SignIsCpp ratOps := by intro x; simp [ratOps]
+example : SignIsCpp realOps := by
+  intro x; simp [realOps_sign, realOps_le, realOps_ofRat, realOps_neg]
+
+/-- the index updates and conditions of `Evaluator::evaluate` / `evaluate_csr_jacobian`, as the model transliterates them
+(`evalPlainRows`, `findBranch` / `evalIfRows`, `jacPlainRows`, `jacIfRows` of `Model/AmlModel.lean`: `con_ndx` ↦ `conNdx`,
+`condition_ndx += _n_conditions - i` ↦ `next := condNdx + (nCond − i)`, `jac_ndx += nnz` per failed condition and
+`+= (_n_conditions - i - 1) * nnz` after the selected block ↦ the `jacNdx` arithmetic of `jacIfRows`). **Decided on the
+regenerated source text**: an edit of a stride or of a loop condition breaks this theorem. -/
+theorem evaluator_loops_are_as_transliterated :
+    Gen.evaluateUpdates = ["con_ndx=0", "++con_ndx", "c=0", "_n_conditions=0", "condition_ndx=0", "found=false",
+      "_n_conditions=n_conditions[c]", "i=0", "found=true", "found=true", "condition_ndx+=_n_conditions-i",
+      "++condition_ndx", "++i", "++c", "++con_ndx"] ∧
+    Gen.csrUpdates = ["nnz_ndx=0", "con_ndx=0", "nnz=row_nnz[con_ndx+1]-row_nnz[con_ndx]", "i=0", "++nnz_ndx", "++con_ndx",
+      "c=0", "i=0", "_n_conditions=0", "condition_ndx=0", "jac_ndx=0", "nnz=row_nnz[con_ndx+1]-row_nnz[con_ndx]",
+      "_n_conditions=n_conditions[c]", "i=0", "found=false", "found=true", "found=true", "++nnz_ndx", "++jac_ndx",
+      "condition_ndx+=_n_conditions-i", "jac_ndx+=(_n_conditions-i-1)*nnz", "++condition_ndx", "++i", "jac_ndx+=nnz",
+      "++con_ndx", "++c"] ∧
+    Gen.evaluateConds = ["if:!is_structure_set", "while:con_ndx<num_cons", "while:con_ndx<num_cons+num_if_else_cons",
+      "while:!found", "if:if_else_condition_rpn[condition_ndx].size()==0",
+      "if:_evaluate(stack,&(if_else_condition_rpn[condition_ndx]),&(leaves[con_ndx]))==1", "if:found"] ∧
+    Gen.csrConds = ["if:!is_structure_set", "while:con_ndx<num_cons", "while:con_ndx<num_cons+num_if_else_cons",
+      "while:!found", "if:if_else_condition_rpn[condition_ndx].size()==0",
+      "if:_evaluate(stack,&(if_else_condition_rpn[condition_ndx]),&(leaves[con_ndx]))==1", "if:found",
+      "for:inti=0;i<nnz;++i", "for:intj=0;j<nnz;++j"] := by
+  refine ⟨?_, ?_, ?_, ?_⟩ <;> decide +kernel
 
 end Wntr.Aml
